@@ -347,7 +347,10 @@ func (p *policy) allocatePool(container cache.Container, poolHint string) (Grant
 		offer *libmem.Offer
 	)
 
-	request := newRequest(container, p.memAllocator.Masks().AvailableTypes())
+	request, err := newRequest(container, p.memAllocator.Masks().AvailableTypes())
+	if err != nil {
+		return nil, err
+	}
 
 	if p.root.FreeSupply().ReservedCPUs().IsEmpty() && request.CPUType() == cpuReserved {
 		// Fallback to allocating reserved CPUs from the shared pool
